@@ -2,9 +2,11 @@ package main
 
 import (
 	"bytes"
+	"context"
 	"crypto/sha256"
 	"encoding/hex"
 	"fmt"
+	"io"
 	"os"
 	"os/exec"
 	"reflect"
@@ -12,6 +14,8 @@ import (
 	"sync"
 
 	"github.com/sqlc-dev/doubleclick/ast"
+	"github.com/sqlc-dev/doubleclick/lexer"
+	"github.com/sqlc-dev/doubleclick/parser"
 )
 
 func init() {
@@ -152,11 +156,59 @@ func runC10(w *W) {
 		for k := 0; k < 60; k++ {
 			inputs = append(inputs, pool[r.Intn(len(pool))])
 		}
+		// texts whose errors carry lines and columns beyond line 1 (a lexer or parser recycled with stale state shifts them)
+		inputs = append(inputs, "SELECT 1 ,\n2 FROM\n)", "SELECT a\nFROM t\nWHERE (\n1", "\n\nRENAME x", "SELECT 1;\nSELECT 2 ,\n;\nEXCHANGE y", "SELECT 'multi\nline' ,\n /* c\n */ ]")
 		var bases []baseline
 		for _, in := range inputs {
 			if b, ok := makeBaseline(in); ok {
 				bases = append(bases, b)
 			}
+		}
+		// disturbers: calls that end early or abnormally while the others run — a parse under an already cancelled
+		// context, one cancelled part-way through its input, one whose reader fails, a lexer abandoned after a few tokens,
+		// a call that panics (recovered). What they leave behind (pooled lexers, buffers, counters) must not reach anyone.
+		stopDisturb := make(chan struct{})
+		var dwg sync.WaitGroup
+		disturbInputs := []string{"SELECT 1 ,\n2", "SELECT a ,\n\n\nb FROM t;\nSELECT 3", "SELECT 'x\ny' ,\n1;\nSELECT 2;\nSELECT 3", "SELECT /* c\n */ 1 ,\n(\n2)"}
+		for d := 0; d < 2; d++ {
+			dwg.Add(1)
+			go func(d int) {
+				defer dwg.Done()
+				for k := 0; ; k++ {
+					select {
+					case <-stopDisturb:
+						return
+					default:
+					}
+					in := disturbInputs[(k+d)%len(disturbInputs)]
+					switch k % 5 {
+					case 0:
+						ctx, cancel := context.WithCancel(context.Background())
+						cancel()
+						_ = safeParseCtx(ctx, []byte(in), 1<<22)
+					case 1:
+						ctx, cancel := context.WithCancel(context.Background())
+						rd := &cancelAtReader{data: []byte(in), at: 1 + k%len(in), cancel: cancel}
+						_ = guard(func() (string, error) { _, err := parser.Parse(ctx, rd); return "", err })
+						cancel()
+					case 2:
+						rd := &cancelAtReader{data: []byte(in), at: 1 + k%len(in), fail: true}
+						_ = guard(func() (string, error) { _, err := parser.Parse(context.Background(), rd); return "", err })
+					case 3:
+						_ = guard(func() (string, error) {
+							l := lexer.New(strings.NewReader(in))
+							for i := 0; i < 2+k%4; i++ {
+								l.NextToken()
+							}
+							return "", nil
+						})
+					case 4:
+						if obs := safeParse([]byte("SELECT 1, (EXPLAIN SELECT 1 ORDER)"), 1<<22); len(obs.Stmts) > 0 {
+							_ = safeExplain(obs.Stmts[0])
+						}
+					}
+				}
+			}(d)
 		}
 		// (a) distinct inputs in parallel
 		var wg sync.WaitGroup
@@ -226,6 +278,16 @@ func runC10(w *W) {
 			}(g)
 		}
 		wg.Wait()
+		close(stopDisturb)
+		dwg.Wait()
+		// … and sequentially, after the disturbers have stopped: every input once more against its baseline
+		for _, b := range bases {
+			if o, ok := makeBaseline(b.input); ok {
+				if d := b.diff(o); d != "" {
+					report("cross-talk", "cross-talk@after-disturbed-calls", b.input, d)
+				}
+			}
+		}
 		for _, b := range bases {
 			w.Eval([]byte(b.input), true)
 		}
@@ -235,6 +297,39 @@ func runC10(w *W) {
 			w.Sample(fmt.Sprintf("round of %d inputs x %d goroutines; e.g. %q", len(bases), G, bases[0].input))
 		}
 	}
+}
+
+// cancelAtReader serves data in small pieces and, once `at` bytes are out, cancels a context or fails.
+type cancelAtReader struct {
+	data   []byte
+	pos    int
+	at     int
+	cancel func()
+	fail   bool
+}
+
+func (c *cancelAtReader) Read(p []byte) (int, error) {
+	if c.pos >= c.at {
+		if c.cancel != nil {
+			c.cancel()
+		}
+		if c.fail {
+			return 0, fmt.Errorf("disturber: read failed at %d", c.pos)
+		}
+	}
+	if c.pos >= len(c.data) {
+		return 0, io.EOF
+	}
+	n := 3
+	if n > len(p) {
+		n = len(p)
+	}
+	if c.pos+n > len(c.data) {
+		n = len(c.data) - c.pos
+	}
+	copy(p, c.data[c.pos:c.pos+n])
+	c.pos += n
+	return n, nil
 }
 
 // runC11: Explain / ExplainStatements / json.Marshal leave the statement deeply unchanged, are repeatable,
